@@ -420,6 +420,20 @@ def directed(ctx):
                 continue
             one([["t", f"a{c}b"]], chan=chan, expect_reject=True)
     one([["t", "a\x01b "], ["r", "a"], ["t", " c"]], expect_reject=True)
+    # cells that share one itext id (label / hint / guidance_hint / media), each absent, plain or per language:
+    # every combination, in a two-language form; every text must be displayed by the control (seeded C06-8 class)
+    import itertools
+
+    for lab, hin, gui, med in itertools.product(("plain", "lang"), (None, "plain", "lang"), (None, "plain", "lang"), (False, "plain", "lang")):
+        if ctx.quick() and (hin is None and gui is None):
+            continue
+        only = {"label"} | ({"hint"} if hin else set()) | ({"guidance_hint"} if gui else set())
+        form, probes = F.gen_probe_form(ctx.rng, ["English (en)", "fr"], p_ref=0.3, only=only, p_instance=False,
+                                        only_style={"label": lab, "hint": hin, "guidance_hint": gui}, media=med)
+        ctx.count("combo:forms")
+        check_form(ctx, form, probes, "directed")
+    # F40: a quote before an instance() expression
+    one([["t", "it's "], ["i", "instance('l')/root/item[name = 1]/label", None, ""]])
     # F46: text that mentions indexed-repeat( … ) over several lines next to a reference
     one([["t", "see indexed-repeat(x,\n"], ["r", "a"], ["t", ") z"]], chan="hint")
     one([["t", "indexed-repeat(x, y, 1) "], ["r", "a"], ["t", " same line"]], chan="label")
